@@ -521,6 +521,14 @@ where
         matches!(token.as_leaf(), Some(Wildcard(ZeroOrMore(_))))
     }
 
+    fn is_rooting<A>(token: &Token<'_, A>) -> bool {
+        token.as_leaf().map_or(false, token::LeafKind::is_rooting)
+    }
+
+    fn has_starting_root<A>(token: Option<&Token<'_, A>>) -> bool {
+        is_some_and_any_in(token, walk::starting, is_rooting)
+    }
+
     fn has_starting_boundary<A>(token: Option<&Token<'_, A>>) -> bool {
         is_some_and_any_in(token, walk::starting, is_boundary)
     }
@@ -679,6 +687,19 @@ where
                     inner,
                 ))
             },
+            // The alternation is preceded by a termination; disallow sub-globs that begin with a
+            // rooted branch.
+            //
+            // For example, `{</foo:1,>,bar}`.
+            Only((inner, None)) | StartEnd((inner, None), _)
+                if left.is_none() && has_starting_root(Some(inner)) =>
+            {
+                Err(CorrelatedError::new(
+                    RuleErrorKind::RootedSubGlob,
+                    left,
+                    inner,
+                ))
+            },
             _ => Ok(()),
         }
     }
@@ -714,6 +735,19 @@ where
             Only((inner, Some(Wildcard(Tree { has_root: true }))))
             | StartEnd((inner, Some(Wildcard(Tree { has_root: true }))), _)
                 if left.is_none() && lower.is_unbounded() =>
+            {
+                Err(CorrelatedError::new(
+                    RuleErrorKind::RootedSubGlob,
+                    left,
+                    inner,
+                ))
+            },
+            // The repetition is preceded by a termination; disallow sub-globs that begin with a
+            // rooted branch and have a zero lower bound.
+            //
+            // For example, `<</foo:1,>:0,1>`.
+            Only((inner, None)) | StartEnd((inner, None), _)
+                if left.is_none() && lower.is_unbounded() && has_starting_root(Some(inner)) =>
             {
                 Err(CorrelatedError::new(
                     RuleErrorKind::RootedSubGlob,
